@@ -430,6 +430,18 @@ def run_history(case, obs):
                             d = np.nanmax(np.abs(a - b)) if len(a) and not np.all(np.isnan(a - b)) else 0.0
                             if d > worst:
                                 worst, where = float(d), t
+                    # a pump / compressor lifts forward flow and is by-passed in reverse: a net may have a solution on either side of
+                    # that kink (see the listed C08 finding); two runs on different sides are both converged and not comparable
+                    other_side = False
+                    for t in ("pump", "compressor"):
+                        if t in net and "res_" + t in net and len(net[t]) and t in refnet:
+                            a = net["res_" + t]["mdot_from_kg_per_s"].values.astype(float)
+                            b = refnet["res_" + t]["mdot_from_kg_per_s"].values.astype(float)
+                            if np.any((a * b < 0) | ((np.abs(a) <= 1e-8) != (np.abs(b) <= 1e-8))):
+                                other_side = True
+                    if other_side:
+                        obs.count("tight_reference_on_other_side_of_machine_law_not_comparable")
+                        worst = 0.0
                     obs.count("returned_flows_vs_tight_solution_checks")
                     obs.maxi("max_dev_from_tight_solution_kg_per_s", worst)
                     if worst > bound:
